@@ -1,6 +1,7 @@
 (** C13 - a worker runs until stopped, never after stop returns, and can be restarted. *)
 From Coq Require Import List Bool.
 From NX Require Import Trans Worker Worker_proofs Pinned_thread.
+From NX Require PyLite PyLite_tactics Src_all Src_worker_base Src_worker_loop Src_worker_bridge.
 Import ListNotations.
 
 (** every sequence of start/stop calls of one controlling thread and every
@@ -52,6 +53,98 @@ Theorem C13_progress : forall s p,
   w_handle s = Some p -> alive p = true -> exists s', step s LWrk = Some s'.
 Proof. exact worker_progress. Qed.
 
+(** ** nxslib/thread.py as it is now: the regenerated abstract syntax of ThreadCommon run by
+    the PyLite interpreter, with [threading.Event] / [threading.Thread] replaced by the stub
+    classes SimEvent / SimThread of the harness prelude (the thread stub's state IS the model's
+    worker program counter; a join on a running worker is the stub's "would block").  These
+    theorems tie the PER-LINE EFFECTS of model/Worker.v (on which [C13_safe] is proved for every
+    interleaving) to the source text: a controller call run while the worker does not move
+    equals the model's [LCallStart; LCtl*] / [LCallStop; LCtl*], and the worker loop visits
+    exactly the [wstep] sequence with the lines' effects on the callbacks and the flag. *)
+Section OnSource.
+Import String ZArith PyLite PyLite_tactics Src_all Src_worker_base Src_worker_loop Src_worker_bridge.
+Open Scope string_scope.
+
+(** start: for EVERY idle model state and every object representing it *)
+Theorem C13_start_refines_src : forall n tgt ini fin nm sc f h orphan last bad,
+  let s := mkW CIdle f (option_map fst h) orphan last bad in
+  let obj := tc tgt ini fin (handle nm h) (ev f sc) nm in
+  abs_obj obj = Some (view s) /\
+  exists h' f' s',
+    call_method program (3 + n) obj "thread_start" [] = PyLite.Ok (PNone, tc tgt ini fin (handle nm h') (ev f' sc) nm) /\
+    model_call LCallStart s = Some s' /\
+    c_pc s' = CIdle /\ w_last s' = LStart /\ w_orphan s' = orphan /\
+    abs_obj (tc tgt ini fin (handle nm h') (ev f' sc) nm) = Some (view s').
+Proof. exact worker_start_refines. Qed.
+
+(** stop, whenever the model's controller gets through (no handle, or a worker that is not alive) *)
+Theorem C13_stop_refines_src : forall n tgt ini fin nm sc f h orphan last bad,
+  opt_alive (h_pc h) = false ->
+  let s := mkW CIdle f (h_pc h) orphan last bad in
+  let obj := tc tgt ini fin (handle nm h) (ev f sc) nm in
+  abs_obj obj = Some (view s) /\
+  exists f' s',
+    call_method program (3 + n) obj "thread_stop" [] = PyLite.Ok (PNone, tc tgt ini fin PNone (ev f' sc) nm) /\
+    model_call LCallStop s = Some s' /\
+    c_pc s' = CIdle /\ w_last s' = LStop /\ w_orphan s' = orphan /\ w_bad s' = bad /\
+    abs_obj (tc tgt ini fin PNone (ev f' sc) nm) = Some (view s').
+Proof. exact worker_stop_refines. Qed.
+
+(** stop with the worker alive: the interpreted call stands at the join, flag set, handle kept,
+    exactly where the model stands at CT4 with its join not enabled *)
+Theorem C13_stop_blocks_src : forall n tgt ini fin nm sc f p j orphan last bad,
+  alive p = true ->
+  let s := mkW CIdle f (Some p) orphan last bad in
+  let obj := tc tgt ini fin (handle nm (Some (p, j))) (ev f sc) nm in
+  let obj' := tc tgt ini fin (handle nm (Some (p, (j + 1)%Z))) (ev true sc) nm in
+  call_func program (3 + n) Src_thread.ThreadCommon_thread_stop [obj] [] = ExcS "BlockingIOError" (self_st obj') /\
+  call_method program (3 + n) obj "thread_stop" [] = Exc "BlockingIOError" /\
+  exists s1 s3,
+    step s LCallStop = Some s1 /\ ctl_steps 3 s1 = Some s3 /\
+    c_pc s3 = CT4 /\ step s3 LCtl = None /\ model_call LCallStop s = None /\
+    abs_obj obj' = Some (view s3).
+Proof. exact worker_stop_blocks. Qed.
+
+(** "start on a running worker and stop on a stopped worker do nothing": literally nothing *)
+Theorem C13_start_noop_src : forall n tgt ini fin p j f s nm,
+  let obj := tc tgt ini fin (handle nm (Some (p, j))) (ev f s) nm in
+  call_method program (3 + n) obj "thread_start" [] = PyLite.Ok (PNone, obj).
+Proof. intros. unfold obj. rewrite thread_start_spec. reflexivity. Qed.
+
+Theorem C13_stop_noop_src : forall n tgt ini fin f s nm,
+  let obj := tc tgt ini fin (handle nm None) (ev f s) nm in
+  call_method program (3 + n) obj "thread_stop" [] = PyLite.Ok (PNone, obj).
+Proof. intros. unfold obj. rewrite thread_stop_spec. reflexivity. Qed.
+
+(** the worker loop = the model worker's [wstep] run with the lines' effects *)
+Theorem C13_loop_refines_src : forall k x h nm n,
+  wrun k WInit x <> OutOfFuel -> (k + 3 <= n)%nat ->
+  call_method program n (wk x h nm) "_thread_loop" [] = emb_res h nm (wrun k WInit x).
+Proof. exact worker_loop_refines. Qed.
+
+(** init once (iff present), target exactly as often as the flag is seen clear, final once *)
+Theorem C13_loop_counts_src : forall k n tc ic fc fl rest h nm,
+  (0 <= tc)%Z -> (2 * k + 7 <= n)%nat ->
+  let cnt (o : option Z) := option_map (fun c => (c, 0%Z)) o in
+  let cnt' (o : option Z) := option_map (fun c => ((c + 1)%Z, 0%Z)) o in
+  (forall c, ic = Some c -> (0 <= c)%Z) -> (forall c, fc = Some c -> (0 <= c)%Z) ->
+  call_method program n (wk (mkWs (tc, 0%Z) (cnt ic) (cnt fc) fl (repeat false k ++ true :: rest)) h nm) "_thread_loop" [] =
+  PyLite.Ok (PNone, wk (mkWs ((tc + Z.of_nat k)%Z, 0%Z) (cnt' ic) (cnt' fc) fl rest) h nm).
+Proof. exact thread_loop_counts. Qed.
+
+(** "keeps calling target until stop is requested": with the flag never set the loop never returns *)
+Theorem C13_loop_never_stops_src : forall n tc ic fi sc h nm,
+  (0 <= tc)%Z -> (forall c, ic = Some c -> (0 <= c)%Z) -> forallb negb sc = true ->
+  call_method program (3 + n) (wk (mkWs (tc, 0%Z) (option_map (fun c => (c, 0%Z)) ic) fi false sc) h nm) "_thread_loop" [] = Fuel.
+Proof. exact thread_loop_never_stops. Qed.
+End OnSource.
+
 Print Assumptions C13_safe.
 Print Assumptions C13_after_stop.
 Print Assumptions C13_restart.
+Print Assumptions C13_start_refines_src.
+Print Assumptions C13_stop_refines_src.
+Print Assumptions C13_stop_blocks_src.
+Print Assumptions C13_loop_refines_src.
+Print Assumptions C13_loop_counts_src.
+Print Assumptions C13_loop_never_stops_src.
